@@ -392,6 +392,7 @@ def gen_bitmap_pipeline_history(seed, idx):
     ops = [{"op": "write", "path": n, "content": c} for n, c in sorted(state["content"].items())]
     kinds = ["bitmap-pipeline"]
     two_fonts = gen.rng(seed, "c09bp", idx, "two-fonts").random() < 0.4
+    rb = gen.rng(seed, "c09bp", idx, "renderer")
     saved = {}
 
     def argv():
@@ -437,6 +438,11 @@ def gen_bitmap_pipeline_history(seed, idx):
         plan = {}
         if rf.random() < 0.2:
             plan = _fault_plan(rf, ["step"], True)
+        if i > 0 and not plan and rb.random() < 0.3:
+            # the renderer itself fails (whatever the rule's shell makes of that) where an earlier rendering is still around;
+            # fires only if this invocation has a bitmap to render
+            plan = {"faults": [{"pick": rb.randint(0, 1 << 30), "kind": "inner_fail", "rules": ["write_bitmap"], "code": rb.choice([1, 2, 35, 139]),
+                                "mode": rb.choice(["no_output", "partial"]), "signal": rb.choice([None, None, 9, 11])}]}
         op = {"op": "invoke", "cwd": ".", "argv": argv(), "build_dir": "build", "label": "h%d" % i, "sched": gen.sched(rs)}
         op.update(plan)
         ops.append(op)
